@@ -5,6 +5,14 @@ import json, sys
 TECH = "bounded symbolic execution of the real code: go/ssa of /repo's working tree interpreted over SMT terms, every branch and assertion decided by z3/cvc5 (single-byte conditions by an exact 256-value domain procedure), counterexamples replayed natively"
 
 claimed = {
+ "C06": dict(
+   text="Bounded model checking of the real UUID encoders with SHA-1 abstracted as an injective function: for two symbolic nodes (type/id up to L bytes each, documented domain), literals (all 25 kind pairs; bool, full-range int64, float64 from a pool of 9, text/blob up to L bytes; plus text of 4-5 bytes against bool), predicates (immutable/temporal, symbolic nanoseconds, three zones) and triples over a mixed object pool, the solver decides UUID(a)=UUID(b) <=> a and b are the same value, Triple.Equal likewise, that UUID() never panics for any int64, and that a second call (also with a dirty pooled buffer) returns the same bytes. Known findings (no separator between node type and id; no literal type tag) are reproduced natively and reported as KNOWN-FINDING; anything else is a violation.",
+   note="SHA-1 collisions are assumed away (uninterpreted injective functions / real SHA-1 on concrete input); bounds L=2 quick, 3 thorough; temporal seconds from a pool of three; float64 from a pool.",
+   ref="DESIGN.md §4 C06"),
+ "C16": dict(
+   text="Bounded model checking of the real lexer including its goroutine and channel: for every input of up to N bytes (quick: N=3 over 7-bit bytes and N=2 over all 256 values; thorough N=4 / N=3) and channel capacities 0, 1, N+1 the lexer terminates, closes the channel (otherwise the engine reports the deadlock), emits texts that are ordered non-overlapping substrings and exactly one final EOF-or-error token; every keyword and literal type name under a symbolic per-letter case mask lexes to the same token; two valid words separated by any of five whitespace strings give the same tokens; printed forms of nodes, predicates, bounds, bindings, blank nodes and literals with symbolic content are one token with exactly that text. Four lexer/printer escape mismatches are known findings.",
+   note="Bounds as stated; unicode classification of symbolic runes is summarised exactly from the Go tables; the cooperative scheduler runs one canonical schedule here (the lexer protocol is single-producer/single-consumer); anchors from a concrete pool.",
+   ref="DESIGN.md §4 C16"),
  "C15": dict(
    text="Bounded model checking of the real parsers: node.Parse, predicate.Parse, literal (unbound and bounded builder) Parse and triple.ParseObject are executed symbolically on every string of length <= N over all 256 byte values (quick N=4, thorough N=6; literal type templates with a symbolic value hole), asserting no panic, never (nil,nil), well-formed result, and that an accepted node/immutable predicate/non-float literal re-prints to text that parses back to an equal value. Within the bound the verdict covers all 256^N inputs, which the dozen strings per Parse in the test suite cannot.",
    note="Bounds as stated; float literals and temporal anchors are accepted but not re-printed (symbolic float/time formatting is outside the encoding); triple.Parse and io.ReadIntoGraph are covered by C05's harnesses on valid templates only; engine intrinsics trusted, spot-checked natively.",
